@@ -27,3 +27,19 @@ def _(p):
 
     c = ch_c14.classify(p["s"])
     return f"{c}: formula {p['s']!r}" if c.startswith("escape") else None
+
+
+@replay("c17_formula")
+def _(p):
+    from harness import c17_native
+
+    found = c17_native.check_formula(p["formula"])
+    return f"{found[0][0]}: {found[0][1]}" if found else None
+
+
+@replay("c17_sources")
+def _(p):
+    from harness import c17_native
+
+    found = c17_native.check_sources()
+    return f"{found[0][0]}: {found[0][1]}" if found else None
